@@ -802,6 +802,25 @@ func runC14(c *core.Ctx) {
 			w.GoitBin = oldBin
 			w.Env = nil
 		}
+		if c.GoitVFS != "" && (w.Hist == 7 || (c.Thorough() && w.Hist%800 == 7)) {
+			// commits of ONE chain that agree in everything but their parent: a file that flips between two contents, the same
+			// message, the same identity and (pinned clock) the same second; each of them is a commit of its own in the listing
+			oldBin := w.GoitBin
+			w.GoitBin = c.GoitVFS
+			w.Env = map[string]string{"VERIF_NOW": "1700000000"}
+			for i := 0; i < 5; i++ {
+				w.Write("flip.txt", []byte([]string{"one\n", "two\n"}[i%2]))
+				k.goit("add", "flip.txt")
+				k.goit("commit", "-m", "same")
+			}
+			for _, kv := range []int{1, 2, 3, 4, 5, 6, 7, 100} {
+				k.goit("log", "-n", fmt.Sprint(kv))
+			}
+			k.goit("log")
+			c.Count("C14.commits-equal-but-for-parent")
+			w.GoitBin = oldBin
+			w.Env = nil
+		}
 		clockSteps := c.GoitVFS != "" && w.Hist%6 == 4
 		if clockSteps {
 			// the clock of the machine is not monotone (a step back after a time correction, another machine): commits are
@@ -1109,6 +1128,15 @@ func runC20(c *core.Ctx) {
 			secs = append(secs, "[user]", "x]", "[y", "a[1]b", "]")
 		}
 		keys := []string{"name", "email", "editor", "k1", "k_2"}
+		if w.Hist%5 == 2 || w.Hist%5 == 3 {
+			// key names that begin or end with those characters; together with a value that ends in ']' the line of the
+			// setting looks like a section header but for its indentation
+			keys = append(keys, "[tag", "k]", "[k]")
+			w.Goit("config", "user.[tag", "v1]")
+			w.Goit("config", "core.editor", "vi")
+			w.Goit("config", "--global", "core.[g", "[x]")
+			w.Goit("config", "--global", "core.pager", "less")
+		}
 		nw := 1 + r.IntN(25)
 		// which identity parts get configured, and where
 		plan := r.IntN(16) // bit0 local name, bit1 global name, bit2 local email, bit3 global email
